@@ -162,7 +162,7 @@ def strategy(draw):
             mode = "onset"
     perm = list(draw(st.permutations(list(range(len(rows))))))
     return {"spec": spec, "table": table, "mode": mode, "perm": perm, "features": sorted(features),
-            "faulty_rows": faulty_rows}
+            "faulty_rows": faulty_rows, "form": draw(st.sampled_from(["text", "text", "frame"]))}
 
 
 _dd = {}
@@ -181,7 +181,14 @@ def validate_file(spec, header, rows):
     from hed.models.tabular_input import TabularInput
     doc = gen_tab.sidecar_json(spec)
     sidecar = Sidecar(io.StringIO(json.dumps(doc)), name="sc")
-    tab = TabularInput(io.StringIO(gen_tab.to_tsv({"header": header, "rows": rows})), sidecar=sidecar, name="tab")
+    if _FORM["form"] == "frame":
+        # the same table handed over as a DataFrame: own row labels, missing cells as None instead of the text n/a
+        import pandas as pd
+        data = [[(None if (c == "n/a" and h != "onset") else c) for h, c in zip(header, row)] for row in rows]
+        frame = pd.DataFrame(data, columns=header, index=[5 + 3 * i for i in range(len(rows))])
+        tab = TabularInput(frame, sidecar=sidecar, name="tab")
+    else:
+        tab = TabularInput(io.StringIO(gen_tab.to_tsv({"header": header, "rows": rows})), sidecar=sidecar, name="tab")
     before = tab.dataframe.copy(deep=True)
     first = tab.validate(hedenv.schema(VERSION), extra_def_dicts=def_dict(), name="tab")
     # asked again, the same object gives the same answer, and validation leaves the table as it was
@@ -192,6 +199,9 @@ def validate_file(spec, header, rows):
     if not before.astype(object).equals(tab.dataframe.astype(object)) or list(before.index) != list(tab.dataframe.index):
         raise Unstable("table changed by validation")
     return first
+
+
+_FORM = {"form": "text"}
 
 
 class Unstable(Exception):
@@ -257,6 +267,8 @@ def oracle(case):
     out.nontrivial = len(rows) >= 2 and bool(feats or refs)
     out.classes = tuple(sorted({"mode:" + mode} | {f.split(":")[0] for f in feats} | ({"refs"} if refs else set())))
     # (1) totality
+    _FORM["form"] = case.get("form", "text")
+    out.classes += ("form:" + _FORM["form"],)
     try:
         issues = validate_file(spec, header, rows)
     except Unstable as exc:
